@@ -334,6 +334,7 @@ func (p *asyncProducer) dispatcher() {
 		}
 
 		if msg.flags&shutdown != 0 {
+			verifEvt("d.shutdown", msg, 0, 0)
 			shuttingDown = true
 			p.inFlight.Done()
 			continue
@@ -341,6 +342,7 @@ func (p *asyncProducer) dispatcher() {
 			if shuttingDown {
 				// we can't just call returnError here because that decrements the wait group,
 				// which hasn't been incremented yet for this message, and shouldn't be
+				verifEvt("d.reject", msg, 0, 0)
 				pErr := &ProducerError{Msg: msg, Err: ErrShuttingDown}
 				if p.conf.Producer.Return.Errors {
 					p.errors <- pErr
@@ -349,10 +351,13 @@ func (p *asyncProducer) dispatcher() {
 				}
 				continue
 			}
+			verifEvt("d.accept", msg, 0, 0)
 			p.inFlight.Add(1)
 		}
 
+		verifEvt("d.pass", msg, msg.retries, int(msg.flags))
 		for _, interceptor := range p.conf.Producer.Interceptors {
+			verifEvt("d.icept", msg, msg.retries, int(msg.flags))
 			msg.safelyApplyInterceptor(interceptor)
 		}
 
@@ -532,6 +537,7 @@ func (pp *partitionProducer) dispatch() {
 	pp.leader, _ = pp.parent.client.Leader(pp.topic, pp.partition)
 	if pp.leader != nil {
 		pp.brokerProducer = pp.parent.getBrokerProducer(pp.leader)
+		verifEvt("wg.add.syn", nil, int(pp.partition), 0)
 		pp.parent.inFlight.Add(1) // we're generating a syn message; track it so we don't shut down while it's still inflight
 		pp.brokerProducer.input <- &ProducerMessage{Topic: pp.topic, Partition: pp.partition, flags: syn}
 	}
@@ -543,6 +549,7 @@ func (pp *partitionProducer) dispatch() {
 	}()
 
 	for msg := range pp.input {
+		verifEvt("pp.recv", msg, msg.retries, int(msg.flags))
 		if pp.brokerProducer != nil && pp.brokerProducer.abandoned != nil {
 			select {
 			case <-pp.brokerProducer.abandoned:
@@ -565,15 +572,18 @@ func (pp *partitionProducer) dispatch() {
 			if msg.retries < pp.highWatermark {
 				// in fact this message is not even the current retry level, so buffer it for now (unless it's a just a fin)
 				if msg.flags&fin == fin {
+					verifEvt("wg.done.fin", msg, msg.retries, 0)
 					pp.retryState[msg.retries].expectChaser = false
 					pp.parent.inFlight.Done() // this fin is now handled and will be garbage collected
 				} else {
+					verifEvt("pp.buf", msg, msg.retries, pp.highWatermark)
 					pp.retryState[msg.retries].buf = append(pp.retryState[msg.retries].buf, msg)
 				}
 				continue
 			} else if msg.flags&fin == fin {
 				// this message is of the current retry level (msg.retries == highWatermark) and the fin flag is set,
 				// meaning this retry level is done and we can go down (at least) one level and flush that
+				verifEvt("wg.done.fin", msg, msg.retries, 1)
 				pp.retryState[pp.highWatermark].expectChaser = false
 				pp.flushRetryBuffers()
 				pp.parent.inFlight.Done() // this fin is now handled and will be garbage collected
@@ -600,8 +610,10 @@ func (pp *partitionProducer) dispatch() {
 		if pp.parent.conf.Producer.Idempotent && msg.retries == 0 && msg.flags == 0 {
 			msg.sequenceNumber, msg.producerEpoch = pp.parent.txnmgr.getAndIncrementSequenceNumber(msg.Topic, msg.Partition)
 			msg.hasSequence = true
+			verifEvt("pp.seq", msg, int(msg.sequenceNumber), int(msg.producerEpoch))
 		}
 
+		verifEvt("pp.fwd", msg, msg.retries, int(pp.brokerProducer.broker.ID()))
 		pp.brokerProducer.input <- msg
 	}
 }
@@ -613,6 +625,7 @@ func (pp *partitionProducer) newHighWatermark(hwm int) {
 	// send off a fin so that we know when everything "in between" has made it
 	// back to us and we can safely flush the backlog (otherwise we risk re-ordering messages)
 	pp.retryState[pp.highWatermark].expectChaser = true
+	verifEvt("wg.add.fin", nil, int(pp.partition), hwm)
 	pp.parent.inFlight.Add(1) // we're generating a fin message; track it so we don't shut down while it's still inflight
 	pp.brokerProducer.input <- &ProducerMessage{Topic: pp.topic, Partition: pp.partition, flags: fin, retries: pp.highWatermark - 1}
 
@@ -636,6 +649,7 @@ func (pp *partitionProducer) flushRetryBuffers() {
 		}
 
 		for _, msg := range pp.retryState[pp.highWatermark].buf {
+			verifEvt("pp.fwd", msg, msg.retries, int(pp.brokerProducer.broker.ID()))
 			pp.brokerProducer.input <- msg
 		}
 
@@ -662,6 +676,7 @@ func (pp *partitionProducer) updateLeader() error {
 		}
 
 		pp.brokerProducer = pp.parent.getBrokerProducer(pp.leader)
+		verifEvt("wg.add.syn", nil, int(pp.partition), 1)
 		pp.parent.inFlight.Add(1) // we're generating a syn message; track it so we don't shut down while it's still inflight
 		pp.brokerProducer.input <- &ProducerMessage{Topic: pp.topic, Partition: pp.partition, flags: syn}
 
@@ -692,10 +707,12 @@ func (p *asyncProducer) newBrokerProducer(broker *Broker) *brokerProducer {
 	// minimal bridge to make the network response `select`able
 	go withRecover(func() {
 		for set := range bridge {
+			verifEvtSet("bp.sent", set, int(broker.ID()))
 			request := set.buildRequest()
 
 			response, err := broker.Produce(request)
 
+			verifEvtSet("bp.answered", set, int(broker.ID()))
 			responses <- &brokerProducerResponse{
 				set: set,
 				err: err,
@@ -761,12 +778,14 @@ func (bp *brokerProducer) run() {
 				if bp.currentRetries[msg.Topic] == nil {
 					bp.currentRetries[msg.Topic] = make(map[int32]error)
 				}
+				verifEvt("wg.done.syn", msg, int(msg.Partition), int(bp.broker.ID()))
 				bp.currentRetries[msg.Topic][msg.Partition] = nil
 				bp.parent.inFlight.Done()
 				continue
 			}
 
 			if reason := bp.needsRetry(msg); reason != nil {
+				verifEvt("bp.bounce", msg, msg.retries, int(bp.broker.ID()))
 				bp.parent.retryMessage(msg, reason)
 
 				if bp.closing == nil && msg.flags&fin == fin {
@@ -795,6 +814,7 @@ func (bp *brokerProducer) run() {
 					continue
 				}
 			}
+			verifEvt("bp.add", msg, msg.retries, int(bp.broker.ID()))
 			if err := bp.buffer.add(msg); err != nil {
 				bp.parent.returnError(msg, err)
 				continue
@@ -985,6 +1005,7 @@ func (p *asyncProducer) retryBatch(topic string, partition int32, pSet *partitio
 			return
 		}
 		msg.retries++
+		verifEvt("retrybatch", msg, msg.retries, 0)
 	}
 
 	// it's expected that a metadata refresh has been requested prior to calling retryBatch
@@ -1052,16 +1073,19 @@ func (p *asyncProducer) retryHandler() {
 
 func (p *asyncProducer) shutdown() {
 	Logger.Println("Producer shutting down.")
+	verifEvt("wg.add.shutdown", nil, 0, 0)
 	p.inFlight.Add(1)
 	p.input <- &ProducerMessage{flags: shutdown}
 
 	p.inFlight.Wait()
+	verifEvt("wg.waited", nil, 0, 0)
 
 	err := p.client.Close()
 	if err != nil {
 		Logger.Println("producer/shutdown failed to close the embedded client:", err)
 	}
 
+	verifEvt("close", nil, 0, 0)
 	close(p.input)
 	close(p.retries)
 	close(p.errors)
@@ -1071,6 +1095,7 @@ func (p *asyncProducer) shutdown() {
 func (p *asyncProducer) returnError(msg *ProducerMessage, err error) {
 	// We need to reset the producer ID epoch if we set a sequence number on it, because the broker
 	// will never see a message with this number, so we can never continue the sequence.
+	verifEvt("ret.err", msg, msg.retries, int(msg.flags))
 	if msg.hasSequence {
 		Logger.Printf("producer/txnmanager rolling over epoch due to publish failure on %s/%d", msg.Topic, msg.Partition)
 		p.txnmgr.bumpEpoch()
@@ -1093,6 +1118,7 @@ func (p *asyncProducer) returnErrors(batch []*ProducerMessage, err error) {
 
 func (p *asyncProducer) returnSuccesses(batch []*ProducerMessage) {
 	for _, msg := range batch {
+		verifEvt("ret.succ", msg, msg.retries, int(msg.flags))
 		if p.conf.Producer.Return.Successes {
 			msg.clear()
 			p.successes <- msg
@@ -1106,6 +1132,7 @@ func (p *asyncProducer) retryMessage(msg *ProducerMessage, err error) {
 		p.returnError(msg, err)
 	} else {
 		msg.retries++
+		verifEvt("retry", msg, msg.retries, int(msg.flags))
 		p.retries <- msg
 	}
 }
